@@ -91,6 +91,50 @@ pub fn pattern(rng: &mut Rng) -> Vec<PatElem> {
         .collect()
 }
 
+/// a (text, pattern) pair over a two- or three-letter alphabet: patterns of up to 7 elements with 1-3 wildcards,
+/// texts of up to 10 letters, so partial matches that must be abandoned and re-tried inside the matched part are common
+pub fn tight_like(rng: &mut Rng) -> (String, Vec<PatElem>) {
+    let alpha: &[char] = match rng.below(4) {
+        0 => &['a', 'b'],
+        1 => &['a', 'b', 'c'],
+        2 => &['/', 'e'],
+        _ => &['\u{e9}', '\u{e8}', 'z'],
+    };
+    let n = 1 + rng.below(7);
+    let mut pat: Vec<PatElem> = (0..n).map(|_| if rng.chance(1, 4) { PatElem::Wild } else { PatElem::Char(*rng.pick(alpha)) }).collect();
+    if rng.chance(2, 3) {
+        pat.insert(0, PatElem::Wild);
+    }
+    // the text: random, or the pattern's literals spelled out with the wildcards replaced by near-misses of what follows
+    let text: String = if rng.bool() {
+        let m = rng.below(11);
+        (0..m).map(|_| *rng.pick(alpha)).collect()
+    } else {
+        let mut t = String::new();
+        for (i, e) in pat.iter().enumerate() {
+            match e {
+                PatElem::Char(c) => t.push(*c),
+                PatElem::Wild => {
+                    // a proper prefix of the literal run after the wildcard, repeated 0-2 times, then maybe one letter
+                    let run: Vec<char> = pat[i + 1..].iter().map_while(|e| if let PatElem::Char(c) = e { Some(*c) } else { None }).collect();
+                    for _ in 0..rng.below(3) {
+                        let k = if run.is_empty() { 0 } else { rng.below(run.len()) };
+                        t.extend(run[..k].iter());
+                    }
+                    if rng.chance(1, 3) {
+                        t.push(*rng.pick(alpha));
+                    }
+                }
+            }
+        }
+        if rng.chance(1, 5) {
+            t.push(*rng.pick(alpha));
+        }
+        t
+    };
+    (text, pat)
+}
+
 pub const DECIMAL_STRS: [&str; 22] = [
     "0.0", "1.0", "-1.0", "1.23", "0.1234", "-0.0", "922337203685477.5807", "-922337203685477.5808", "922337203685477.5808",
     "-922337203685477.5809", "1.23456", "1", "1.", ".5", "00001.10", "1.2e3", "+1.0", " 1.0", "1.0 ", "0.00010", "12345678901234567890.0", "\u{661}.0",
